@@ -2,6 +2,15 @@
 import json, os
 V = os.path.dirname(os.path.dirname(os.path.abspath(__file__)))
 CLAIMED = {
+ "C19": dict(
+   text="Proof: up to the final age, whenever the turning-off bin has the slope of the IMF's last segment, the simplified nested derivative IS the full stellar-evolution "
+        "derivative with full BH retention and the same empty-bin threshold (equality of the two model functions for every state), so the two integrations coincide step "
+        "for step; a non-BH remnant before the final age is a RuntimeError; after the final age nothing is deposited. The nested copy of |dm_to/dt| is re-extracted and "
+        "proved equal to the model kernel (T2). The nested closure is CAPTURED from the running constructor and compared with the model on arbitrary (t, y). Oracle: "
+        "from_IMF vs EvolvedMF to the same age (per-bin N, M), reported age, stellar losses vs closed-form IMF integrals, from_BHMF edges / sum, kicks only remove.",
+   design="8/C19", technique="Coq proof of equality of two model fields + regenerated formula tie + float correspondence on a captured closure + full-model differential oracle",
+   note="Trusted: Coq kernel; Reals axioms; harness (closure capture); open findings: slope of the last segment used for all progenitors, Ms_lost on untruncated edges."),
+
  "C18": dict(
    text="Proof: the binned initial values are linear in N (slopes unchanged); the stellar-evolution field is homogeneous of degree one in the star counts provided no "
         "'empty bin' comparison changes side (the only place an absolute constant enters); BH ejection is homogeneous in (bins, budget); and (RK.v) a homogeneous field "
@@ -131,7 +140,7 @@ CLAIMED = {
         "generated layouts (int / list / dict forms, both spacings, real and stub IFMR bounds, edges on IFMR bounds).",
    design="8/C13", technique="Coq proofs by list induction (real instance) + bit-exact float correspondence + property oracle on constructed MassBins",
    note="Trusted: Coq kernel; Reals axioms listed in evidence; numpy.geomspace modelled mathematically (1e-12), linspace operation-by-operation; harness. "
-        "Dict-form remnant bins are exercised by the oracle only (not modelled). Open findings: edge at the NS mass, edge at the WD maximum, first break above the WD maximum."),
+        "Dict-form remnant bins are exercised by the oracle only (not modelled). Open findings: edge at the NS mass, edge at the WD maximum."),
 
  "C12": dict(
    text="Proof: Coq theorems (Coquelicot) that the helper's closed form IS the Riemann integral of m^(a+k-1) on [m1,m2] in both branches, is positive, additive, "
